@@ -2180,6 +2180,11 @@ func areaShape(c *Ctx) {
 		g.emit(sc, "filter cache family")
 	}
 	g.countMismatchFamily()
+	for i := 0; i < shpBetweenCount(); i++ {
+		sc, what := shpBetweenCase(i)
+		c.Stat("obligation: input positions between the components of a nested ligature", what[:9])
+		g.emit(sc, "between-components family")
+	}
 	g.layoutFamily()
 	g.layoutSeqFamily()
 	// over-budget rules whose nested insertions produce glyphs that start the same match again
@@ -3242,4 +3247,65 @@ func (g *shpGen) layoutSeqFamily() {
 			}
 		}
 	}
+}
+
+// ---------------------------------------------------------------- round 10: input positions between ligature components
+//
+// A contextual rule WITHOUT ignore flags whose input contains marks; its first nested action is a
+// ligature lookup WITH IgnoreMarks of 3-4 components, so that stored input positions of the
+// enclosing match lie BETWEEN merged components (fixStackMerge must shift them); the second
+// action addresses every index of the post-merge match (and one beyond).
+
+var shpBetweenPatterns = [][]glyph.ID{
+	{fA, fB, fM1, fC},
+	{fA, fB, fC, fM1, fD},
+	{fA, fB, fM1, fC, fM2, fD},
+	{fA, fM1, fB, fM2, fC},
+}
+
+func shpBetweenCount() int {
+	n := 0
+	for _, p := range shpBetweenPatterns {
+		marks := 0
+		for _, x := range p {
+			if x >= fM1 && x <= fM3 {
+				marks++
+			}
+		}
+		n += 6 * (marks + 3)
+	}
+	return n
+}
+
+func shpBetweenCase(idx int) (*shpCase, string) {
+	for _, p := range shpBetweenPatterns {
+		var comps, marks []glyph.ID
+		for _, x := range p {
+			if x >= fM1 && x <= fM3 {
+				marks = append(marks, x)
+			} else {
+				comps = append(comps, x)
+			}
+		}
+		per := 6 * (len(marks) + 3)
+		if idx >= per {
+			idx -= per
+			continue
+		}
+		pf := shpTrailingFormats[idx%6]
+		k := idx / 6 // sequence index of the second action: 0 .. #marks+2 (the last two are beyond the match)
+		acts := []gtab.SeqLookup{{SequenceIndex: 0, LookupListIndex: 1}, {SequenceIndex: uint16(k), LookupListIndex: 2}}
+		parent, tp := shpMkContext(pf, p, acts)
+		ll := gtab.LookupList{
+			shpFamLookup(tp, 0, 0, parent),
+			shpFamLookup(4, gtab.IgnoreMarks, 0, &gtab.Gsub4_1{Cov: coverage.Table{comps[0]: 0}, Repl: [][]gtab.Ligature{{{In: comps[1:], Out: fL}}}}),
+			shpFamLookup(1, 0, 0, &gtab.Gsub1_2{Cov: coverage.Table{fL: 0, fM1: 1, fM2: 2}, SubstituteGlyphIDs: []glyph.ID{8, fM3, fM3}}),
+		}
+		with := append(append([]glyph.ID(nil), p...), fA)
+		twice := append(append([]glyph.ID(nil), p...), p...)
+		c := &shpCase{ll: ll, gd: shpFamGdef, lookups: []gtab.LookupIndex{0},
+			hist: [][]glyph.Info{shpFamSeq(p...), shpFamSeq(with...), shpFamSeq(twice...)}}
+		return c, fmt.Sprintf("parent %d, %d components, %d marks, second action at %d", pf, len(comps), len(marks), k)
+	}
+	panic("index out of range")
 }
